@@ -47,7 +47,7 @@ func (f *FuncCtx) callEffects(call *ast.CallExpr, lt *loopTargets) {
 		if _, isB := obj.(*types.Builtin); isB {
 			if obj.Name() == "delete" && len(call.Args) > 0 {
 				if m, ok := types.Unalias(f.typeOf(call.Args[0])).Underlying().(*types.Map); ok {
-					d, v, l := f.w.mapHeaps(f.sortOfT(m.Key()), f.sortOfT(m.Elem()))
+					d, v, l := f.w.mapHeapsT(m, f.bv)
 					lt.heaps[d], lt.heaps[v], lt.heaps[l] = true, true, true
 				}
 			}
@@ -55,7 +55,7 @@ func (f *FuncCtx) callEffects(call *ast.CallExpr, lt *loopTargets) {
 				lt.heaps["alloc"] = true
 				if len(call.Args) > 0 {
 					if m, ok := types.Unalias(f.tinfo().TypeOf(call.Args[0])).Underlying().(*types.Map); ok {
-						d, v, l := f.w.mapHeaps(f.sortOfT(m.Key()), f.sortOfT(m.Elem()))
+						d, v, l := f.w.mapHeapsT(m, f.bv)
 						lt.heaps[d], lt.heaps[v], lt.heaps[l] = true, true, true
 					}
 				}
@@ -126,7 +126,7 @@ func (f *FuncCtx) resolveMod(c *Contract, item string) (heaps []string, ghosts [
 			cfail("modifies %s: %v", item, err)
 		}
 		m := t.(*types.Map)
-		d, v, l := w.mapHeaps(w.sortOf(m.Key(), false), w.sortOf(m.Elem(), false))
+		d, v, l := w.mapHeapsT(m, false)
 		return []string{d, v, l}, nil
 	case strings.HasPrefix(item, "global "):
 		name := strings.TrimSpace(strings.TrimPrefix(item, "global "))
@@ -276,9 +276,17 @@ func (f *FuncCtx) call(st *State, call *ast.CallExpr) []Term {
 		args = append(args[:np-1:np-1], packed)
 	}
 	if c, ok := f.w.contracts[key]; ok {
+		if c.Inline && f.w.funcs[key] != nil && f.inlineDepth < 4 {
+			return f.inlineCall(st, f.w.funcs[key], recv, args, call)
+		}
 		return f.applyContract(st, c, fn, recv, args, f.site("call:"+fn.Name()), f.pos(call))
 	}
-	// no contract
+	// no contract: trivial accessors (single return of a call-free expression) are inlined
+	if fi := f.w.funcs[key]; fi != nil && f.inlineDepth < 4 {
+		if f.isTrivialAccessor(fi) {
+			return f.inlineCall(st, fi, recv, args, call)
+		}
+	}
 	var rs []Term
 	for i := 0; i < sig.Results().Len(); i++ {
 		rs = append(rs, f.havocVal(st, "r_"+fn.Name(), sig.Results().At(i).Type()))
@@ -358,7 +366,10 @@ func (f *FuncCtx) applyContract(st *State, c *Contract, fn *types.Func, recv *Te
 		st.ghost[ga.Target] = Term{S: v.S, Sort: cur.Sort, GoT: cur.GoT}
 	}
 	if c.ModAll {
-		f.havocAll(st)
+		// `modifies *` = every heap location; ghost state only when listed explicitly
+		for _, h := range f.w.heapOrd {
+			f.havocHeap(st, h)
+		}
 	}
 	for _, m := range c.Modifies {
 		hs, gs := f.resolveMod(c, m)
@@ -433,7 +444,7 @@ func (f *FuncCtx) builtin(st *State, call *ast.CallExpr, name string) []Term {
 		case *types.Slice, *types.Array:
 			return []Term{{S: "(len_" + a.Sort + " " + a.S + ")", Sort: SInt, GoT: rt}}
 		case *types.Map:
-			_, _, ln := f.w.mapHeaps(f.sortOfT(u.Key()), f.sortOfT(u.Elem()))
+			_, _, ln := f.w.mapHeapsT(u, f.bv)
 			r := Term{S: "(ite (= " + a.S + " 0) 0 (select " + f.heapTerm(st, ln, f.w.heapSorts[ln]) + " " + a.S + "))", Sort: SInt, GoT: rt}
 			r = f.defineAlways(st, "maplen", r)
 			st.assume("(>= " + r.S + " 0)")
@@ -510,4 +521,118 @@ func (f *FuncCtx) builtin(st *State, call *ast.CallExpr, name string) []Term {
 	}
 	unsup("builtin %s at %s", name, f.pos(call))
 	return nil
+}
+
+// isTrivialAccessor: the body is a single `return e` (or a single assignment to a field) without calls or loops.
+func (f *FuncCtx) isTrivialAccessor(fi *FuncInfo) bool {
+	if len(fi.Decl.Body.List) != 1 {
+		return false
+	}
+	ok := true
+	ast.Inspect(fi.Decl.Body, func(n ast.Node) bool {
+		switch n.(type) {
+		case *ast.CallExpr, *ast.ForStmt, *ast.RangeStmt, *ast.FuncLit, *ast.DeferStmt, *ast.GoStmt:
+			ok = false
+		}
+		return ok
+	})
+	if !ok {
+		return false
+	}
+	switch fi.Decl.Body.List[0].(type) {
+	case *ast.ReturnStmt, *ast.AssignStmt:
+		return true
+	}
+	return false
+}
+
+// inlineCall executes the callee's body in place (no loops with invariants, no defers).
+func (f *FuncCtx) inlineCall(st *State, fi *FuncInfo, recv *Term, args []Term, call *ast.CallExpr) []Term {
+	saved := *f
+	defer func() {
+		// restore per-function context but keep accumulated results
+		f.info, f.results, f.retOrd, f.deferred, f.inlineDepth, f.recvVar = saved.info, saved.results, saved.retOrd, saved.deferred, saved.inlineDepth, saved.recvVar
+	}()
+	f.info = fi
+	f.inlineDepth++
+	f.results = nil
+	f.retOrd = map[ast.Node]int{}
+	tinfo := fi.Pkg.TypesInfo
+	sig := fi.Obj.Type().(*types.Signature)
+	if fi.Decl.Recv != nil && len(fi.Decl.Recv.List) > 0 && len(fi.Decl.Recv.List[0].Names) > 0 && recv != nil {
+		rv := tinfo.Defs[fi.Decl.Recv.List[0].Names[0]].(*types.Var)
+		r := *recv
+		r.GoT = rv.Type()
+		st.vars[rv] = r
+	}
+	pi := 0
+	for _, fld := range fi.Decl.Type.Params.List {
+		for _, n := range fld.Names {
+			if n.Name != "_" && pi < len(args) {
+				v := tinfo.Defs[n].(*types.Var)
+				a := args[pi]
+				a.GoT = v.Type()
+				st.vars[v] = a
+			}
+			pi++
+		}
+		if len(fld.Names) == 0 {
+			pi++
+		}
+	}
+	if fi.Decl.Type.Results != nil {
+		for _, fld := range fi.Decl.Type.Results.List {
+			for _, n := range fld.Names {
+				if n.Name == "_" {
+					continue
+				}
+				v := tinfo.Defs[n].(*types.Var)
+				f.results = append(f.results, v)
+				st.vars[v] = f.zero(v.Type())
+			}
+		}
+	}
+	ast.Inspect(fi.Decl.Body, func(n ast.Node) bool {
+		switch n.(type) {
+		case *ast.ForStmt, *ast.RangeStmt, *ast.DeferStmt:
+			unsup("inlined function %s contains a loop or defer", fi.Obj.Name())
+		}
+		return true
+	})
+	flow := f.block(st, fi.Decl.Body.List)
+	f.pend = append(f.pend, flow.Panics...)
+	outs := flow.Returns
+	if flow.Normal != nil {
+		flow.Normal.ret = nil
+		outs = append(outs, flow.Normal)
+	}
+	// carry return values through the merge in synthetic variables
+	var tmp []*types.Var
+	for i := 0; i < sig.Results().Len(); i++ {
+		tmp = append(tmp, types.NewVar(call.Pos(), fi.Pkg.Types, fmt.Sprintf("ret%d", i), sig.Results().At(i).Type()))
+	}
+	for _, o := range outs {
+		for i, tv := range tmp {
+			if i < len(o.ret) {
+				o.vars[tv] = o.ret[i]
+			}
+		}
+	}
+	m := f.merge(outs)
+	if m == nil {
+		st.assume("false")
+		var rs []Term
+		for i := 0; i < sig.Results().Len(); i++ {
+			rs = append(rs, f.zero(sig.Results().At(i).Type()))
+		}
+		return rs
+	}
+	var rs []Term
+	for _, tv := range tmp {
+		rs = append(rs, m.vars[tv])
+		delete(m.vars, tv)
+	}
+	m.ret = nil
+	*st = *m
+	return rs
 }
